@@ -118,6 +118,12 @@ theorem s2b_tables_complete (s : Sys) :
                       (specMult s p).isSome = true := by
   cases s <;> decide
 
+/-- **Exactly three unit systems** — the live table `UNIT_SYSTEM_INFO`, read after the whole package
+    has been imported (any module may touch the public table at import), has the keys `IEC`, `SI`, `mixed`
+    and no other: a sibling module registering a further name would make that name a known system. -/
+theorem s2b_systems_are_exactly_three :
+    unitSystemInfo.map (·.1) = [Sys.iec.key, Sys.si.key, Sys.mixed.key] := by decide
+
 /-- no other key is a unit system -/
 theorem lemma_lookupSys_some (key : List Char) (x : Option Nat × List Char × Bool × Bool)
     (h : lookupSys key = some x) : ∃ s : Sys, key = s.key ∧ x = (s.tableBase, s.letters, s.optI, false) := by
@@ -417,6 +423,13 @@ theorem s2b_rejects_unknown_argument (a : SysArg) (text : List Char) (ri : Bool)
   | other => rfl
   | str k =>
     exact s2b_rejects_unknown_system k text ri (fun s hk => h s (by rw [hk]))
+
+/-- **Rejects, bytes-valued unit system** — ValueError.  Partial: in the default interpreter mode;
+    under `python -bb` building the error message raises BytesWarning instead (second conjunct, the code
+    as it is; proposed known finding N7-bytes-unit-system-bb). -/
+theorem s2b_rejects_bytes_system_partial :
+    stringToBytesBytesSys false = .error .valueError ∧ stringToBytesBytesSys true = .error .bytesWarning :=
+  ⟨rfl, rfl⟩
 
 /-- **Default** — leaving the argument out means IEC (the default of the live signature, extracted
     on every run): it is a unit-system *name*, so an explicit `None` is not a way to say "default". -/
